@@ -1,4 +1,58 @@
-import Physt.Theorems.C01
+import Physt.Theorems.C18
+/-!
+# C12 — derived histograms are independent of their sources
+
+In the model a histogram is a *value*: the record returned by a derivation shares nothing with
+its source, and an in-place operation is a function from the old value of its target to the new
+one.  Independence is therefore a frame property of the register store the driver keeps — stated
+and proved below for an arbitrary store — and what has to be established about the *code* is that
+it behaves like this value model.  That is exactly what the correspondence check of C12 does: after
+every step of every generated (derivation, mutation history) it compares **all** live histograms of
+the implementation with the model's registers, so any aliasing between two Python objects shows up
+as a register that changed without being written.
+-/
 namespace Physt
-theorem C12_placeholder : True := trivial
+open H1
+
+/-- a register store: histogram number `i`, if it exists -/
+abbrev Store := Nat → Option H1
+
+def Store.write (s : Store) (i : Nat) (h : H1) : Store := fun j => if j = i then some h else s j
+
+/-- **Frame.** Writing register `i` (the result of a derivation, or the new value of the target of
+    an in-place operation) leaves every other register exactly as it was. -/
+theorem C12_frame (s : Store) (i j : Nat) (h : H1) (hij : j ≠ i) : (s.write i h) j = s j := by
+  simp [Store.write, hij]
+
+/-- …and this holds along every history of writes that never target `j`. -/
+theorem C12_history (s : Store) (j : Nat) (ws : List (Nat × H1)) (hno : ∀ w ∈ ws, w.1 ≠ j) :
+    (ws.foldl (fun s w => s.write w.1 w.2) s) j = s j := by
+  induction ws generalizing s with
+  | nil => rfl
+  | cons w ws ih =>
+    simp only [List.foldl_cons]
+    rw [ih _ (fun x hx => hno x (List.mem_cons_of_mem _ hx))]
+    exact C12_frame s w.1 j w.2 (fun e => hno w (List.mem_cons_self ..) e.symm)
+
+/-- `copy()` is equal to the original in every field (class, dtype, metadata and statistics are
+    fields of the value) -/
+theorem C12_copy (h : H1) : h.copy true = h := rfl
+
+/-- `copy(include_frequencies=False)` is empty over the same bins, keeps dtype and `keep_missed`,
+    starts with empty (valid) statistics, and is well-formed — hence fully usable -/
+theorem C12_empty_copy (fo : FloatOps) (h : H1) (w : WF fo h) :
+    (h.copy false).binning = h.binning ∧ (h.copy false).dtype = h.dtype ∧ (h.copy false).keep = h.keep ∧
+    (h.copy false).stats = Stats.empty ∧ (h.copy false).total = 0 ∧ WF fo (h.copy false) := by
+  refine ⟨rfl, rfl, rfl, rfl, ?_, ?_⟩
+  · simp [H1.copy, H1.total, zeros]
+  · refine ⟨by simp [H1.copy, H1.bins, zeros, w.flen], by simp [H1.copy, H1.bins, zeros, w.elen], ?_, ?_⟩ <;>
+      (intro x hx; simp [H1.copy, zeros] at hx; rw [hx.2])
+
+/-- operations that are not in-place are functions of their operands: the operands are unchanged
+    by definition (e.g. `a + b` is `a.iadd b` applied to a *copy* of `a`) -/
+theorem C12_pure_ops (fo : FloatOps) (a b : H1) :
+    (a.copy true).iadd fo b = a.iadd fo b ∧ (a.copy true).imul 2 .pyInt = a.imul 2 .pyInt := ⟨rfl, rfl⟩
+
+example : (Store.write (fun _ => none) 0 ({ binning := .static [(0, 1)] true, freq := [1], err2 := [1] } : H1)) 1 = none := rfl
+
 end Physt
